@@ -12,6 +12,9 @@ import (
 	dstore "dsim/store"
 
 	"github.com/dolthub/dolt/go/libraries/doltcore/dbfactory"
+	"github.com/dolthub/dolt/go/libraries/doltcore/doltdb"
+	"github.com/dolthub/dolt/go/libraries/doltcore/env"
+	"github.com/dolthub/dolt/go/libraries/utils/filesys"
 )
 
 // Crash images for the SQL harnesses: the server process dies at a file-system event inside a
@@ -91,13 +94,32 @@ func sqlCrashCases(log []simos.Event, start, end int, underRel string, max, salt
 	return out
 }
 
+// crashImagesMayLackRootDB: the harness drops databases, the root database of the server directory
+// among them; an image without it is a legal one (the server then runs on the nested databases).
+var crashImagesMayLackRootDB bool
+
 // OpenWorld starts an engine on an existing server directory (a materialised crash image).
 func OpenWorld(ctx context.Context, root string) (*World, error) {
 	w := &World{Root: root, nextCon: 1}
 	os.Setenv("DOLT_ROOT_PATH", root)
-	dEnv, err := loadEnv(ctx, root, false)
-	if err != nil {
-		return nil, err
+	var dEnv *env.DoltEnv
+	if crashImagesMayLackRootDB {
+		fs, err := filesys.LocalFilesysWithWorkingDir(root)
+		if err == nil {
+			fs, err = fs.WithWorkingDir("test")
+		}
+		if err != nil {
+			return nil, err
+		}
+		dEnv = env.Load(ctx, homeFunc(root), fs, doltdb.LocalDirDoltDB, "test")
+		if dEnv.DBLoadError != nil && dEnv.HasDoltDataDir() {
+			return nil, fmt.Errorf("loading the database: %w", dEnv.DBLoadError)
+		}
+	} else {
+		var err error
+		if dEnv, err = loadEnv(ctx, root, false); err != nil {
+			return nil, err
+		}
 	}
 	w.Env = dEnv
 	if err := w.startEngine(ctx); err != nil {
